@@ -456,7 +456,7 @@ def _cases(ctx):
     # year parts 69-99 are 20YY like any other (the suffix space is the same, so
     # the two-character suffixes suffice here)
     two = [s_ for s_ in sufs if len(s_) == 2]
-    for late in ("691231", "991231"):
+    for late in ("691231", "991231", "240229", "000229"):
         for i in range(0, len(two), 512):
             cases.append(["suffixes", late, two[i:i + 512]])
     return cases, len(sufs)
